@@ -11,7 +11,7 @@ Import RecordSetNotations.
 Definition stage (c : option lpc) : nat :=
   match c with
   | None => 0 | Some (LClosing _) => 1 | Some LSignal => 2 | Some LWait => 3
-  | Some LCloseBacklog => 4 | Some LCloseErrors => 5 | Some LRet => 6
+  | Some LCloseBacklog => 4 | Some LRet => 5
   end.
 Definition slive (p : spc) : nat := match p with SExited => 0 | _ => 1 end.
 Fixpoint sums (l : list spc) : nat := match l with [] => 0 | x :: r => slive x + sums r end.
@@ -49,7 +49,6 @@ Record LInv (n : nat) (s : lst) : Prop := {
   l_wg : swg s = sums (serve s);
   l_done : sdone s = (3 <=? stage (lcloser s));
   l_bcl : bclosed s = (5 <=? stage (lcloser s));
-  l_ecl : eclosed s = (6 <=? stage (lcloser s));
   l_wait : 4 <= stage (lcloser s) -> swg s = 0;
   l_closing : match lcloser s with
               | Some (LClosing k) => k < n /\ closed_upto (lclosed s) k
@@ -92,13 +91,13 @@ Ltac finL :=
 Lemma lstep_inv n s c s' : lstep s c = Some s' -> LInv n s -> LInv n s'.
 Proof.
   unfold lstep. destruct (lpanic s) eqn:Hp; [discriminate|].
-  intros H [I1 (I2a & I2b & I2c) I3 I4 I5 I6 I7 I8].
+  intros H [I1 (I2a & I2b & I2c) I3 I4 I5 I7 I8].
   destruct c.
   - dmatch H; inv H; constructor; cbn; auto; finL.
-    all: try (destruct (lcloser s) as [[k| | | | |]|]; cbn in *; try discriminate; try lia; auto).
+    all: try (destruct (lcloser s) as [[k| | | |]|]; cbn in *; try discriminate; try lia; auto).
     all: try (specialize (I7 ltac:(lia)); lia).
   - dmatch H; inv H; constructor; cbn; auto; finL.
-    all: try (destruct (lcloser s) as [[k| | | | |]|]; cbn in *; try discriminate; try lia; auto).
+    all: try (destruct (lcloser s) as [[k| | | |]|]; cbn in *; try discriminate; try lia; auto).
   - dmatch H; inv H; constructor; cbn; auto; finL.
     all: try (destruct I8 as [K1 K2]).
     all: try (split; [lia|apply closed_upto_upd; [lia|auto]]).
@@ -106,7 +105,7 @@ Proof.
     all: try (intros i Hi; lia).
     all: try (split; [lia|intros i Hi; lia]).
   - dmatch H; inv H; constructor; cbn; auto; finL.
-    all: destruct (lcloser s) as [[k| | | | |]|]; auto.
+    all: destruct (lcloser s) as [[k| | | |]|]; auto.
   - dmatch H; inv H; constructor; cbn; auto; finL.
 Qed.
 
@@ -138,11 +137,11 @@ Lemma listener_close_releases n b cs : let s := lrun (linit n b) cs in
   lcloser s = Some LRet ->
   (forall i x, nth_error (serve s) i = Some x -> x = SExited) /\
   (forall i, i < n -> nth_error (lclosed s) i = Some true) /\
-  sdone s = true /\ bclosed s = true /\ eclosed s = true /\ swg s = 0.
+  sdone s = true /\ bclosed s = true /\ swg s = 0.
 Proof.
   intros s H. pose proof (lrun_inv n b cs) as I. fold s in I.
   pose proof (l_wait _ _ I) as W. pose proof (l_closing _ _ I) as C.
-  pose proof (l_done _ _ I) as D. pose proof (l_bcl _ _ I) as B. pose proof (l_ecl _ _ I) as E.
+  pose proof (l_done _ _ I) as D. pose proof (l_bcl _ _ I) as B.
   rewrite H in *. cbn in *. specialize (W ltac:(lia)).
   repeat split; auto. apply sums_zero. rewrite <- (l_wg _ _ I). exact W.
 Qed.
@@ -203,11 +202,11 @@ Proof.
   pose proof (l_panic _ _ I) as Hp.
   assert (lstep s LClose <> None -> exists c, lowned c = true /\ lstep s c <> None) as En
     by (intros X; exists LClose; auto).
-  pose proof (l_done _ _ I) as D. pose proof (l_bcl _ _ I) as B. pose proof (l_ecl _ _ I) as E.
+  pose proof (l_done _ _ I) as D. pose proof (l_bcl _ _ I) as B.
   pose proof (l_closing _ _ I) as C. pose proof (l_wg _ _ I) as W.
   destruct (l_len _ _ I) as (L1 & L2 & L3).
   rewrite Hc in *. cbn in *.
-  destruct pc; try (apply En; unfold lstep; rewrite Hp, Hc; cbn in *; rewrite ?D, ?B, ?E; discriminate); try congruence.
+  destruct pc; try (apply En; unfold lstep; rewrite Hp, Hc; cbn in *; rewrite ?D, ?B; discriminate); try congruence.
   (* LWait *)
   destruct (swg s) eqn:Ew; [apply En; unfold lstep; rewrite Hp, Hc, Ew; discriminate|].
   destruct (sums_pos_ex (serve s)) as (i & x & Hn & Hx); [lia|].
